@@ -133,6 +133,13 @@ func (t *tailWriter) Write(p []byte) (int, error) {
 // supervise re-executes the check as a child with a crash journal, unless this process already is one.
 func (r *Run) supervise() {
 	if os.Getenv("VERIF_SUPERVISED") != "" || r.replay != nil || r.shardN > 0 {
+		// every process that executes code under test runs under an address-space limit: code that allocates without
+		// bound then dies with a Go fatal error - which the supervisor attributes to the input in flight - instead of
+		// taking the machine down. (C19 starts a -race binary, whose shadow memory needs the whole address space.)
+		if os.Getenv("VERIF_SUPERVISED") != "" && r.ID != "C19" && os.Getenv("VERIF_NO_AS_LIMIT") == "" {
+			n := uint64(24) << 30
+			syscall.Setrlimit(syscall.RLIMIT_AS, &syscall.Rlimit{Cur: n, Max: n})
+		}
 		if jp := os.Getenv("VERIF_JOURNAL_MMAP"); jp != "" && r.replay == nil && r.shardN == 0 {
 			r.journal = openJournal(jp, false)
 		}
